@@ -6,7 +6,7 @@ import effects
 EXPLANATION = ("Reaching-definition rules on the CFG: MscStepFromGeo returns either its argument or clamp(., gstep, true_step) on every path; MscStepToGeo's last definition of result.step on every path is min(result.step, tstep); UrbanMsc stores/restores the step through these functors; the range-limited energy loss returns the full energy. Table lookups (XsCalculator, RangeCalculator, InverseRangeCalculator, GenericCalculator): the bin search is dominated by the false edges of the tests against front() and back(); abscissa and ordinate are read at idx and idx+1 of the found bin; ValueGridXsBuilder's index correction tests the predicate its postcondition states; UniformGrid::find bounds the float-computed bin.")
 NOT_DECIDED = ('values between knots (interpolation arithmetic), continuity, monotone inverses, non-negativity of the grid calculators (numeric)')
 
-TECHNIQUE = ('reaching definitions on the CFG (every return / last definition of the MSC path conversions is a clamp/min with the required bounds); guard dominance of the bin search by the range tests; index-expression agreement of the knot accesses; sibling agreement between the roundoff correction and its stated postcondition; forward path walk for an integer bound on the float-computed bin')
+TECHNIQUE = ('reaching definitions on the CFG (every return / last definition of the MSC path conversions is a clamp/min with the required bounds); guard dominance of the bin search by the range tests; index-expression agreement of the knot accesses; sibling agreement between the roundoff correction and its stated postcondition; forward path walk for an integer bound on the float-computed bin; exact-zero propagation through the linear interpolator (bit-exactness at the lower knot); sibling agreement of the interpolation scales of range and inverse range')
 
 UNITS = [
     "src/celeritas/global/alongstep/AlongStepUniformMscAction.cc",
